@@ -55,6 +55,13 @@ class _Subst(ast.NodeTransformer):
         return node
 
     def visit_Subscript(self, node):
+        if isinstance(getattr(node, "ctx", None), ast.Load) and isinstance(
+                node.value, ast.Name):
+            # an item stored earlier on this path into a local container
+            sl = self.visit(clone(node.slice))
+            k = "@%s[%s]" % (node.value.id, U(sl))
+            if k in self.env:
+                return clone(self.env[k])
         node = self.generic_visit(node)
         if isinstance(getattr(node, "ctx", None), ast.Load):
             k = "@" + U(node)
@@ -200,6 +207,10 @@ class Explorer:
                     self._bind(e, ast.Subscript(
                         value=v, slice=ast.Constant(value=i),
                         ctx=ast.Load()), p)
+        elif isinstance(t, ast.Subscript) and isinstance(t.value, ast.Name):
+            # item store into a local container: keyed by the container's
+            # own name (not by the value it was bound to)
+            p.env["@%s[%s]" % (t.value.id, U(self.sym(t.slice, p)))] = v
         else:
             # attribute / subscript store: remembered under its text
             p.env["@" + U(self.sym(_as_load(t), p))] = v
